@@ -169,3 +169,275 @@ def _final_store(f, rep, is_info_store, label):
     # among 'last' stores, at least one is the accumulator and all others are constants / callee results on early exits
     rep.check(ok, "M-MIN", "%s#final-store" % f.name, "the value stored through info before the normal return is the accumulator",
               "no store of the accumulated minimum reaches the normal return (%s)" % label, last[0].loc if last else f.file, f.name)
+
+
+# ------------------------------------------------------------------ pivot policy (C02 / C16 / C08)
+
+def _cd_closure(f, bid, limit=40):
+    """transitive control-dependence edges of a block: set of (branch block id, successor id)"""
+    cd = f.control_deps()
+    out = set()
+    work = [bid]
+    seen = set()
+    while work and len(seen) < limit:
+        b = work.pop()
+        if b in seen:
+            continue
+        seen.add(b)
+        for (a, s) in cd.get(b, ()):
+            if (a, s) not in out:
+                out.add((a, s))
+                work.append(a)
+    return out
+
+
+def _absval_of(f, o):
+    """if operand o is |x| (fabs / llvm.fabs / ?_abs1 of a loaded or addressed element) return the index value of that element, else None"""
+    o = strip_casts(f, o)
+    if o[0] != "v":
+        return None
+    c = f.inst[o[1]]
+    if c.op != "call" or not c.callee:
+        return None
+    if not (c.callee.startswith("llvm.fabs") or c.callee in ("fabs", "fabsf", "c_abs1", "z_abs1", "c_abs", "z_abs")):
+        return None
+    a = strip_casts(f, c.ops[0])
+    if a[0] != "v":
+        return None
+    x = f.inst[a[1]]
+    if x.op == "load":
+        return gep_index(f, x.ops[0]), x
+    if x.op == "getelementptr":
+        return gep_index(f, a), x
+    return None
+
+
+def rule_pivot_policy(mod, rep, which=("user", "diag", "max", "record", "swap", "scan")):
+    rep.rule("P-POLICY", "p?gstrf_pivotL: thresh = u*pivmax; a non-max candidate (the row recorded for reuse, looked up under *usepr through inv_perm_r[jcol]; the original "
+             "diagonal, looked up through inv_perm_c[jcol]) replaces the max-magnitude choice only on an edge guarded by |cand| != 0 and |cand| >= thresh "
+             "(diagonal: also found, and only when the recorded row is not in use); the candidate scan starts at the pivot position nsupc; perm_r[pivrow]=jcol and "
+             "inv_perm_r[jcol]=pivrow are stored on every path to return; the row interchange covers columns 0..nsupc", floor=20)
+    e = mod.enums
+    for prec, f in fam(mod, "p?gstrf_pivotL"):
+        rep.scope([f.name])
+        ku = f.pindex("u"); kj = f.pindex("jcol"); kup = f.pindex("usepr"); kpr = f.pindex("perm_r"); kipr = f.pindex("inv_perm_r"); kipc = f.pindex("inv_perm_c"); kpv = f.pindex("pivrow")
+        from .threads import loop_bound
+        # scan loop: the loop whose body updates a float phi under fcmp ogt (pivmax)
+        scan = None
+        for h, body in f.loops():
+            for ph in f.blocks[h].insts:
+                if ph.op == "phi" and ph.ty in ("double", "float"):
+                    scan = (h, body, ph)
+            if scan:
+                break
+        if not scan:
+            rep.brk("ANALYSIS-BROKEN P-POLICY: scan loop not found in %s" % f.name)
+            continue
+        h, body, pivmax = scan
+        lb = loop_bound(f, h, body)
+        hdr = f.blocks[h]
+        iphis = [p for p in hdr.insts if p.op == "phi" and p.ty.startswith("i")]
+        isub = lb[0] if lb else None
+        # classify integer header phis by how they are updated inside the loop
+        cand = {}
+        for ph in iphis:
+            if isub is not None and ph.i == isub.i:
+                continue
+            kind = None
+            for o, b in zip(ph.ops, ph.inb):
+                if b in body:
+                    # value from the latch: a phi merging 'ph' and isub under some guard
+                    for x in expr_insts(f, o):
+                        pass
+            # guards: find blocks inside the loop where the merged value takes isub
+            for blk in [f.blocks[b] for b in body]:
+                for q in blk.insts:
+                    if q.op == "phi" and q is not ph and any(same_val(strip_casts(f, o), ["v", ph.i]) for o in q.ops) and any(isub is not None and same_val(strip_casts(f, o), ["v", isub.i]) for o in q.ops):
+                        # block from which isub arrives
+                        for o, pb in zip(q.ops, q.inb):
+                            if isub is not None and same_val(strip_casts(f, o), ["v", isub.i]):
+                                for (a, s) in f.control_deps().get(pb, ()):
+                                    t = f.blocks[a].insts[-1]
+                                    if t.ops and t.ops[0][0] == "v":
+                                        C = f.inst[t.ops[0][1]]
+                                        if C.op == "fcmp" and C.pred in ("ogt", "ugt"):
+                                            kind = "max"
+                                        elif C.op == "icmp" and C.pred in ("eq", "ne"):
+                                            # compare lsub_ptr[isub] with a target
+                                            tg = None
+                                            for oo in C.ops:
+                                                oo = strip_casts(f, oo)
+                                                if oo[0] == "v" and f.inst[oo[1]].op == "load":
+                                                    L = f.inst[oo[1]]
+                                                    ps = f.addr_paths(L)
+                                                    if (("A", kipc), ("i",)) in ps:
+                                                        tg = "diag"
+                                                    elif (("A", kpv),) in ps:
+                                                        tg = "user"
+                                                    elif any(p[0] == ("A", kipc) for p in ps):
+                                                        tg = "diag"
+                                                if oo[0] == "v" and f.inst[oo[1]].op == "load" and (("A", kipc), ("i",)) in f.addr_paths(f.inst[oo[1]]):
+                                                    tg = "diag"
+                                            # diagind is loaded once before the loop
+                                            if tg is None:
+                                                for oo in C.ops:
+                                                    oo = strip_casts(f, oo)
+                                                    if oo[0] == "v" and any(p[:1] == (("A", kipc),) for p in f.paths(oo)):
+                                                        tg = "diag"
+                                                    if oo[0] == "v" and any(p[:1] == (("A", kpv),) for p in f.paths(oo)):
+                                                        tg = "user"
+                                            kind = kind or tg
+            if kind:
+                cand[ph.i] = kind
+        kinds = set(cand.values())
+        rep.check({"max", "diag", "user"} <= kinds, "P-POLICY", "%s#candidates" % f.name, "scan loop tracks max-magnitude, recorded-row and diagonal candidates",
+                  "scan loop candidates found: %s (expected max, user, diag; diagonal must be located through inv_perm_c[jcol], recorded row through *pivrow=inv_perm_r[jcol])" % sorted(kinds), hdr.insts[0].loc, f.name)
+        # scan start == pivot position used by CDIV / interchange (nsupc)
+        if isub is not None:
+            start = [strip_casts(f, o) for o, b in zip(isub.ops, isub.inb) if b not in body]
+            nsupc = None
+            for x in f.insts():
+                if x.op == "sub" and strip_casts(f, x.ops[0]) == ["a", kj]:
+                    nsupc = ["v", x.i]
+            rep.check(bool(start) and nsupc is not None and same_val(start[0], nsupc), "P-POLICY", "%s#scan-start" % f.name, "candidate scan starts at nsupc = jcol - fsupc",
+                      "the candidate scan does not start at the pivot position nsupc (an entry stored there, e.g. the diagonal, is never recognised)", isub.loc, f.name)
+            init_ok = True
+            for pid_, kd in cand.items():
+                ph = f.inst[pid_]
+                ini = [strip_casts(f, o) for o, b in zip(ph.ops, ph.inb) if b not in body]
+                if kd == "diag" and not (ini and is_const(ini[0], -1)):
+                    init_ok = False
+            rep.check(init_ok, "P-POLICY", "%s#diag-init" % f.name, "diag starts as EMPTY", "diag does not start as EMPTY (-1)", hdr.insts[0].loc, f.name)
+        # thresh
+        thr = [x for x in f.insts() if x.op == "fmul" and any(strip_casts(f, o) == ["a", ku] or (strip_casts(f, o)[0] == "v" and f.inst[strip_casts(f, o)[1]].op in ("fpext", "fptrunc") and False) for o in x.ops)]
+        thr = [x for x in f.insts() if x.op == "fmul" and any(_is_param(f, o, ku) for o in x.ops) and any(_is_phi_chain(f, o, pivmax) for o in x.ops)]
+        rep.check(bool(thr), "P-POLICY", "%s#thresh" % f.name, "thresh = u * pivmax", "no product of the threshold parameter u with the column maximum found", f.file, f.name)
+        # selection edges after the loop
+        n_sel = {"user": 0, "diag": 0}
+        for q in f.insts():
+            if q.op != "phi" or q.bb.id in body or not q.ty.startswith("i"):
+                continue
+            for o, pb in zip(q.ops, q.inb):
+                o = strip_casts(f, o)
+                if o[0] != "v" or o[1] not in cand or cand[o[1]] == "max":
+                    continue
+                kd = cand[o[1]]
+                # only edges where this candidate is *chosen* (the other incoming is a different value)
+                if all(same_val(strip_casts(f, x), o) for x in q.ops):
+                    continue
+                n_sel[kd] += 1
+                clo = _cd_closure(f, pb)
+                g_thr = g_nz = g_found = False
+                u_yes = u_no = False
+                for (a, s) in clo:
+                    t = f.blocks[a].insts[-1]
+                    if not (t.op == "br" and t.ops and t.ops[0][0] == "v"):
+                        continue
+                    C = f.inst[t.ops[0][1]]
+                    taken_true = (s == t.tgt[0])
+                    if C.op == "fcmp":
+                        av = [_absval_of(f, x) for x in C.ops]
+                        for k in (0, 1):
+                            if av[k] and same_val(av[k][0], o):
+                                other = strip_casts(f, C.ops[1 - k])
+                                if other[0] == "f" and other[1] == 0.0:
+                                    if (C.pred in ("one", "une") and taken_true) or (C.pred in ("oeq", "ueq") and not taken_true):
+                                        g_nz = True
+                                elif other[0] == "v" and f.inst[other[1]] in thr:
+                                    ge = (C.pred in ("oge", "uge") and k == 0) or (C.pred in ("ole", "ule") and k == 1)
+                                    lt = (C.pred in ("olt", "ult") and k == 0) or (C.pred in ("ogt", "ugt") and k == 1)
+                                    if (ge and taken_true) or (lt and not taken_true):
+                                        g_thr = True
+                    elif C.op == "icmp":
+                        a0, b0 = strip_casts(f, C.ops[0]), strip_casts(f, C.ops[1])
+                        if same_val(a0, o) and is_const(b0, 0) and ((C.pred == "sge" and taken_true) or (C.pred == "slt" and not taken_true)):
+                            g_found = True
+                        if same_val(a0, o) and is_const(b0, -1) and ((C.pred in ("sgt", "ne") and taken_true) or (C.pred in ("sle", "eq") and not taken_true)):
+                            g_found = True
+                        for x, y in ((a0, b0), (b0, a0)):
+                            if x[0] == "v" and f.inst[x[1]].op == "load" and (("A", kup),) in f.addr_paths(f.inst[x[1]]) and y[0] == "c":
+                                eqedge = (C.pred == "eq" and taken_true) or (C.pred == "ne" and not taken_true)
+                                if y[1] == e["YES"] and eqedge: u_yes = True
+                                if y[1] == e["NO"] and eqedge: u_no = True
+                                if y[1] == e["YES"] and not eqedge and C.pred in ("eq", "ne"): u_no = True
+                                if y[1] == e["NO"] and not eqedge and C.pred in ("eq", "ne"): u_yes = True
+                why = []
+                if not g_thr: why.append("not guarded by |candidate| >= u*pivmax")
+                if not g_nz: why.append("not guarded by |candidate| != 0")
+                if kd == "diag" and not g_found: why.append("not guarded by 'diagonal found' (diag >= 0)")
+                if kd == "user" and not u_yes: why.append("not guarded by *usepr == YES")
+                if kd == "diag" and not u_no: why.append("not guarded by *usepr == NO")
+                rep.check(not why, "P-POLICY", "%s#choose-%s" % (f.name, kd), "%s candidate chosen only when non-zero and >= u*pivmax%s" % (kd, " and found" if kd == "diag" else ""),
+                          "%s candidate can be chosen on an edge %s" % (kd, "; ".join(why)), f.blocks[pb].insts[-1].loc, f.name)
+        for kd in ("user", "diag"):
+            if n_sel[kd] == 0:
+                rep.fail("P-POLICY", "%s#choose-%s" % (f.name, kd), "the %s candidate is never selected after the scan (policy clause missing)" % kd, f.file, f.name)
+        # record
+        for nm, k, valpred in (("perm_r[pivrow]=jcol", kpr, lambda s: strip_casts(f, s.ops[0]) == ["a", kj]),
+                               ("inv_perm_r[jcol]=pivrow", kipr, lambda s: same_val(gep_index(f, s.ops[1]), ["a", kj]))):
+            sts = [s for s in f.insts() if s.op == "store" and (("A", k), ("i",)) in f.addr_paths(s) and valpred(s)]
+            r = f.reach([f.entry()], stop=lambda x: x in sts, include_start=True)
+            leak = [f.inst[x] for x in r if f.inst[x].op == "ret"]
+            rep.check(bool(sts) and not leak, "P-POLICY", "%s#record-%s" % (f.name, nm.split("[")[0]), "%s on every path to return" % nm,
+                      "a return is reachable without %s" % nm, leak[0].loc if leak else f.file, f.name)
+        # interchange loop bound
+        okswap = False
+        for hh, bb in f.loops():
+            if hh == h:
+                continue
+            l2 = loop_bound(f, hh, bb)
+            if l2 and l2[1] == "sle" and any((s.op == "store" and addr_is_elem_of(f, s, "lusup")) or (s.op == "call" and (s.callee or "").startswith("llvm.memcpy") and any(len(p) >= 3 and p[-3][0] == "f" and p[-3][2] == "lusup" for p in f.paths(s.ops[0]))) for b in bb for s in f.blocks[b].insts):
+                bv = strip_casts(f, l2[2])
+                if bv[0] == "v" and f.inst[bv[1]].op == "sub" and strip_casts(f, f.inst[bv[1]].ops[0]) == ["a", kj]:
+                    okswap = True
+        rep.check(okswap, "P-POLICY", "%s#interchange" % f.name, "row interchange loop runs icol = 0..nsupc inclusive",
+                  "the numerical row interchange does not cover columns 0..nsupc of the supernode", f.file, f.name)
+
+
+def _is_param(f, o, k):
+    o = strip_casts(f, o)
+    return o == ["a", k]
+
+
+def _is_phi_chain(f, o, ph, depth=0):
+    o = strip_casts(f, o)
+    if o[0] != "v":
+        return False
+    if o[1] == ph.i:
+        return True
+    x = f.inst[o[1]]
+    if x.op == "phi" and depth < 4:
+        return any(_is_phi_chain(f, y, ph, depth + 1) for y in x.ops)
+    return False
+
+
+def rule_inverse_perms(mod, rep):
+    rep.rule("P-INV", "p?gstrf_thread_init builds the inverse permutations as inv_perm_c[perm_c[i]] = i and (under usepr) inv_perm_r[perm_r[i]] = i", floor=8)
+    for prec, f in fam(mod, "p?gstrf_thread_init"):
+        rep.scope([f.name])
+        for nm, fld, src in (("inv_perm_c", "inv_perm_c", "perm_c"), ("inv_perm_r", "inv_perm_r", "perm_r")):
+            sts = []
+            for s in f.insts():
+                if s.op != "store":
+                    continue
+                ps = f.addr_paths(s)
+                # the arrays are fresh intMalloc results also stored into pxgstrf_shared->inv_perm_?
+                tgt = None
+                for x in f.insts():
+                    if x.op == "store" and addr_is_field_cell(f, x, fld, "pxgstrf_shared_t"):
+                        tgt = f.paths(x.ops[0])
+                if tgt and any(p[:-1] in tgt for p in ps if p[-1] == ("i",)):
+                    sts.append(s)
+            ok = False
+            for s in sts:
+                idx = gep_index(f, s.ops[1])
+                if idx is None or idx[0] != "v":
+                    continue
+                L = f.inst[idx[1]]
+                if L.op != "load":
+                    continue
+                from_src = any(p[-1] == ("i",) and ((len(p) >= 3 and p[-3][0] == "f" and p[-3][2] == src) or (len(p) == 2 and p[0][0] == "A" and f.pname(p[0][1]) == src)) for p in f.addr_paths(L))
+                if from_src and same_val(strip_casts(f, s.ops[0]), gep_index(f, L.ops[0])):
+                    ok = True
+            rep.check(ok, "P-INV", "%s#%s" % (f.name, nm), "%s[%s[i]] = i" % (nm, src), "%s is not built as the inverse of %s (pivotL would look for the diagonal / recorded row in the wrong place)" % (nm, src),
+                      sts[0].loc if sts else f.file, f.name)
